@@ -13,6 +13,7 @@ import (
 	"os"
 	"runtime"
 	"runtime/metrics"
+	"runtime/pprof"
 	"strconv"
 	"strings"
 	"time"
@@ -206,6 +207,7 @@ func guarded(f func() string) string {
 	case r := <-ch:
 		return r
 	case <-time.After(caseTimeout):
+		_ = pprof.Lookup("goroutine").WriteTo(os.Stderr, 2)
 		fmt.Fprintln(os.Stderr, "HANG: case exceeded the time limit")
 		os.Exit(3)
 	}
@@ -736,8 +738,40 @@ func handle(f []string) string {
 	return "bad-op"
 }
 
+// allocated returns the cumulative number of heap bytes allocated by the process.
+func allocated() uint64 {
+	s := []metrics.Sample{{Name: "/gc/heap/allocs:bytes"}}
+	metrics.Read(s)
+	if s[0].Value.Kind() == metrics.KindUint64 {
+		return s[0].Value.Uint64()
+	}
+	return 0
+}
+
+// accounted runs one case and prefixes the result with ALLOC-EXCESS when the case allocated more
+// than a generous linear budget in the size of its input line (64 MiB + 256 bytes per input byte):
+// "decoders never allocate without bound" as a measured predicate.
+func accounted(f []string) string {
+	if len(f) > 0 && f[0] == "tok" {
+		return handle(f)
+	}
+	size := 0
+	for _, s := range f {
+		if s == ";" {
+			break
+		}
+		size += len(s) + 1
+	}
+	before := allocated()
+	r := safe(func() string { return handle(f) })
+	if d := allocated() - before; d > 64<<20+256*uint64(size) {
+		return fmt.Sprintf("ALLOC-EXCESS %dMiB %s", d>>20, r)
+	}
+	return r
+}
+
 func main() {
 	_ = logger.Init(logger.Logging{Env: "prod", Level: "panic"})
 	go watchdog()
-	drv.Run(func(f []string) string { return guarded(func() string { return handle(f) }) })
+	drv.Run(func(f []string) string { return guarded(func() string { return accounted(f) }) })
 }
